@@ -103,7 +103,7 @@ def check_deb(filename, *, options):
                 if os.path.islink(path):
                     continue
                 if os.path.isfile(path):
-                    check_file(path, options=options)
+                    check_regular_file(path, options=options)
 
 def check_file(path, *, options):
     if options.unpack_deb:
